@@ -47,6 +47,9 @@ _r_int_dotdotdot = re.compile(r"(\b(int|long|short|signed|unsigned|char)\s*)+"
                               r"\.\.\.")
 _r_float_dotdotdot = re.compile(r"\b(double|float)\s*\.\.\.")
 
+_SIMPLE_ESCAPES = {"'": 39, '"': 34, '?': 63, '\\': 92, '0': 0, 'a': 7,
+                   'b': 8, 'f': 12, 'n': 10, 'r': 13, 't': 9, 'v': 11}
+
 def _get_parser():
     global _parser_cache
     if _parser_cache is None:
@@ -898,9 +901,11 @@ class Parser:
                         elif s.lower()[0:2] == '0b':
                             return int(s, 2)
                 raise CDefError("invalid constant %r" % (s,))
-            elif s[0] == "'" and s[-1] == "'" and (
-                    len(s) == 3 or (len(s) == 4 and s[1] == "\\")):
+            elif s[0] == "'" and s[-1] == "'" and len(s) == 3:
                 return ord(s[-2])
+            elif (s[0] == "'" and s[-1] == "'" and len(s) == 4
+                      and s[1] == "\\" and s[2] in _SIMPLE_ESCAPES):
+                return _SIMPLE_ESCAPES[s[2]]
             else:
                 raise CDefError("invalid constant %r" % (s,))
         #
